@@ -9,7 +9,7 @@ export GOCACHE=$(pwd)/.cache/go-build
 mkdir -p bin .cache
 go build -o bin/vinstr ./cmd/vinstr || exit 2
 # self-test of the explorers (sleep sets and DPOR must reach the same outcomes as plain enumeration) and of the runtime model (spawn edge, RWMutex writer preference)
-(cd _rt && go test -count=1 -short -run 'TestReductions|TestRandomPrograms|TestSpawnEdge|TestRWMutexWriterPreference|TestCondModel|TestMapAndOnceModel' . >/dev/null) || { echo "setup: explorer self-test failed" >&2; exit 2; }
+(cd _rt && go test -count=1 -short -run 'TestReductions|TestRandomPrograms|TestSpawnEdge|TestRWMutexWriterPreference|TestCondModel|TestMapAndOnceModel|TestSelectRendezvousModel' . >/dev/null) || { echo "setup: explorer self-test failed" >&2; exit 2; }
 ./run.sh list >/dev/null || exit 2
 ./run.sh transparency || { echo "setup: repository tests fail on the instrumented build" >&2; exit 2; }
 echo "setup ok"
